@@ -50,7 +50,16 @@ LenientP(p) == IF p[Len(p)] \in 1..16 /\ ~PadConsistent(p) THEN 1 ELSE 0
 Lenient(e, d, rk) == IF e.mode = "cbc" /\ e.dir = "dec" /\ Len(e.iv) = 16 /\ Len(d) > 0 /\ Len(d) % 16 = 0
                      THEN LenientP(M!CbcD(rk, d, 0, e.iv, <<>>)) ELSE 0
 Mode2(e, d, rk) == Mode3([e EXCEPT !.lenient = Lenient(e, d, rk)], d, IF e.dir = "enc" THEN M!EncOutcome(e.mode, rk, e.iv, d) ELSE M!DecOutcome(e.mode, rk, e.iv, d))
-Mode1(e) == Mode2(e, MsgOf(e), KeySchedule(e.key))
+\* LARGE inputs (more than 4096 bytes): judged with the local form of the modes (BlockModes: one equation per block, no recursion over the blocks;
+\* equivalence with the recursive definitions checked by MC_Modes); the CBC leniency rule is evaluated on the last block
+LargeLenient(e, d, rk) == e.mode = "cbc" /\ e.dir = "dec" /\ e.outcome = "err" /\ Len(e.iv) = 16 /\ Len(d) % 16 = 0
+                          /\ LenientP(M!CbcPlainBlk(rk, e.iv, d, (Len(d) \div 16) - 1)) = 1
+ModeL(e, d, rk) == /\ tst' = tst
+                   /\ tlast' = Verdict(e, (IF e.dir = "enc" THEN M!EncLocalOK(e.mode, rk, e.iv, d, e.outcome, e.out) ELSE M!DecLocalOK(e.mode, rk, e.iv, d, e.outcome, e.out))
+                                           \/ LargeLenient(e, d, rk),
+                                       ModeClass(e, Len(d)) \o ".large", IF BadOutcome(e) THEN e.outcome ELSE "wrong-output")
+Mode1b(e, d, rk) == IF Len(d) > 4096 THEN ModeL(e, d, rk) ELSE Mode2(e, d, rk)
+Mode1(e) == Mode1b(e, MsgOf(e), KeySchedule(e.key))
 Step(e) == IF e.op = "sm4.new" THEN New1(e)
            ELSE IF e.op \in {"sm4.enc", "sm4.dec"} THEN Blk1(e)
            ELSE IF e.op = "sm4.mode" THEN Mode1(e)
